@@ -3,87 +3,94 @@
 From Murex Require Import Base.Outcome Base.Bytes Model.Control Check.C39 Proof.Control.
 Local Open Scope N_scope.
 
-(* For every well-named program of the structured language, of any nesting depth and any
-   iteration counts, murex's cancellation mechanism (run_cancel) shows exactly the output and
-   exit number of the reference semantics with break / continue / return signals (run_ref). *)
+(* For every well-named program of the structured language (out, if/else, switch/case/default,
+   foreach, formap, for, while with two blocks and with one, try, trypipe, function calls,
+   break NAME, break, continue NAME, return N), of any nesting depth and any iteration counts,
+   murex's cancellation mechanism (run_cancel) shows exactly the output and exit number of the
+   reference semantics with break / continue / return signals (run_ref). *)
 Theorem C39_cancel_refines_signals : forall main, well_named main = true -> run_cancel main = run_ref main.
 Proof. exact cancel_refines_signals. Qed.
 Print Assumptions C39_cancel_refines_signals.
 
-Theorem C39_break_stops_rest_of_block : forall e nm rest st o x, st <> [] -> all_live st = true ->
-  exec_block e (BCons (Break nm) rest) {| c_stack := st; c_out := o; c_exit := x |}
-  = {| c_stack := brk_walk nm st; c_out := o; c_exit := x |}.
+Theorem C39_break_stops_rest_of_block : forall tm e nm rest st o x xp, st <> [] -> all_live st = true ->
+  exec_block tm e (BCons (Break nm) rest) {| c_stack := st; c_out := o; c_exit := x |} xp
+  = ({| c_stack := brk_walk nm st; c_out := o; c_exit := x |}, 0%Z).
 Proof. exact break_stops_rest_of_block. Qed.
 Print Assumptions C39_break_stops_rest_of_block.
 
+Theorem C39_nameless_break_ends_innermost : forall F st, kill_top (F :: st) = kill 0 F :: st.
+Proof. exact nameless_break_ends_innermost. Qed.
+Print Assumptions C39_nameless_break_ends_innermost.
+
 Theorem C39_break_outside_untouched : forall nm F inner outer,
   f_name F = nm -> (forall G, In G inner -> name_eqb (f_name G) nm = false) ->
-  brk_walk nm (inner ++ F :: outer) = map kill inner ++ kill F :: outer.
+  brk_walk nm (inner ++ F :: outer) = map (kill 0) inner ++ kill 0 F :: outer.
 Proof. exact break_outside_untouched. Qed.
 Print Assumptions C39_break_outside_untouched.
 
 Theorem C39_continue_next_iteration : forall nm F inner outer,
   f_name F = nm -> (forall G, In G inner -> name_eqb (f_name G) nm = false) ->
-  cont_up nm (inner ++ F :: outer) = map kill inner ++ kill_rest F :: outer.
+  cont_up nm (inner ++ F :: outer) = map (kill 0) inner ++ kill_rest F :: outer.
 Proof. exact continue_next_iteration. Qed.
 Print Assumptions C39_continue_next_iteration.
 
-Theorem C39_continue_loop_goes_on : forall body nm k i o,
-  body i = (o, SCont nm) ->
-  ref_loop body nm (S k) i = (o ++ fst (ref_loop body nm k (i + 1)), snd (ref_loop body nm k (i + 1))).
+Theorem C39_continue_loop_goes_on : forall body nm k i o x,
+  body i = (o, SCont nm, x) ->
+  ref_loop body nm false (S k) i = (o ++ fst (ref_loop body nm false k (i + 1)), snd (ref_loop body nm false k (i + 1))).
 Proof. exact continue_loop_goes_on. Qed.
 Print Assumptions C39_continue_loop_goes_on.
 
-Theorem C39_return_sets_exit : forall main o k, well_named main = true ->
-  ref_block [] main = (o, SRet k) -> run_cancel main = (o, k).
+Theorem C39_return_sets_exit : forall main o k x, well_named main = true ->
+  ref_block false [] main 0%Z = (o, SRet k, x) -> run_cancel main = (o, k).
 Proof. exact return_sets_exit. Qed.
 Print Assumptions C39_return_sets_exit.
 
-Theorem C39_return_sets_call_exit : forall e f b encl st o x o1 k,
-  all_live st = true -> map f_name st = encl -> encl <> [] -> wn_block [NFunc f] b = true ->
-  ref_block [] b = (o1, SRet k) ->
-  exec_stmt e (Call f b) {| c_stack := st; c_out := o; c_exit := x |}
-  = {| c_stack := st; c_out := o ++ o1 ++ [TExit k]; c_exit := x |}.
+Theorem C39_return_sets_call_exit : forall e f b encl st o x o1 k xb,
+  all_live st = true -> map f_name st = names encl -> encl <> [] -> wn_block [(NFunc f, false)] b = true ->
+  ref_block false [] b 0%Z = (o1, SRet k, xb) ->
+  exec_stmt false e (Call f b) {| c_stack := st; c_out := o; c_exit := x |}
+  = ({| c_stack := st; c_out := o ++ o1 ++ [TExit k]; c_exit := x |}, 0%Z).
 Proof. exact return_sets_call_exit. Qed.
 Print Assumptions C39_return_sets_call_exit.
 
-Theorem C39_outside_unaffected : forall e s encl st o x,
-  all_live st = true -> map f_name st = encl -> encl <> [] -> wn_stmt encl s = true ->
-  snd (ref_stmt e s) = SNone ->
-  exec_stmt e s {| c_stack := st; c_out := o; c_exit := x |}
-  = {| c_stack := st; c_out := o ++ fst (ref_stmt e s); c_exit := x |}.
+Theorem C39_outside_unaffected : forall tm e s encl st o x,
+  all_live st = true -> map f_name st = names encl -> encl <> [] -> wn_stmt encl s = true ->
+  snd (fst (ref_stmt tm e s)) = SNone ->
+  fst (exec_stmt tm e s {| c_stack := st; c_out := o; c_exit := x |})
+  = {| c_stack := st; c_out := o ++ fst (fst (ref_stmt tm e s)); c_exit := x |}.
 Proof. exact outside_unaffected. Qed.
 Print Assumptions C39_outside_unaffected.
 
-(* The function boundary.  A break / continue / return executed inside a called function - also
-   one whose name only a block of the CALLER has - never reaches the caller: the caller's frames
-   and exit number are what they were, and for the caller the call is an ordinary statement.
-   (well_named asks nothing of the name of a break or continue, so C39_cancel_refines_signals
-   covers programs with such jumps: the function is abandoned, the caller carries on.) *)
-Theorem C39_break_does_not_cross_function : forall e f b st o x,
-  c_stack (exec_stmt e (Call f b) {| c_stack := st; c_out := o; c_exit := x |}) = st /\
-  c_exit (exec_stmt e (Call f b) {| c_stack := st; c_out := o; c_exit := x |}) = x /\
-  snd (ref_stmt e (Call f b)) = SNone.
+(* try / trypipe: a loop ended by its own break (or completed) inside a try block has exit
+   number 0 and the try block goes on with the statements after the loop ... *)
+Theorem C39_break_inside_try_affects_only_named_block : forall pipe e k id n b rest,
+  snd (fst (ref_stmt true e (Loop k id n b))) = SNone ->
+  snd (ref_stmt true e (Loop k id n b)) = 0%Z /\
+  ref_stmt false e (Try pipe (BCons (Loop k id n b) rest)) =
+    (let '(o2, g2, x2) := ref_block true e rest 0%Z in
+     (fst (fst (ref_stmt true e (Loop k id n b))) ++ o2, absorb (try_name pipe) g2, x2)).
+Proof. exact break_inside_try_affects_only_named_block. Qed.
+Print Assumptions C39_break_inside_try_affects_only_named_block.
+
+(* ... while a call that returns a non-zero number does end the try block, as documented *)
+Theorem C39_failed_call_ends_try_block : forall e f b rest o1 k xb, (0 < k)%Z -> rest <> BNil ->
+  ref_block false [] b 0%Z = (o1, SRet k, xb) ->
+  ref_block true e (BCons (Call f b) rest) 0%Z = (o1, SNone, k).
+Proof. exact failed_call_ends_try_block. Qed.
+Print Assumptions C39_failed_call_ends_try_block.
+
+(* The function boundary (see docs/C39.md). *)
+Theorem C39_break_does_not_cross_function : forall tm e f b st o x,
+  c_stack (fst (exec_stmt tm e (Call f b) {| c_stack := st; c_out := o; c_exit := x |})) = st /\
+  c_exit (fst (exec_stmt tm e (Call f b) {| c_stack := st; c_out := o; c_exit := x |})) = x /\
+  snd (fst (ref_stmt tm e (Call f b))) = SNone.
 Proof. exact break_does_not_cross_function. Qed.
 Print Assumptions C39_break_does_not_cross_function.
 
 Theorem C39_unresolved_break_kills_function_only : forall nm st,
-  (forall G, In G st -> name_eqb (f_name G) nm = false) -> brk_walk nm st = map kill st.
+  (forall G, In G st -> name_eqb (f_name G) nm = false) -> brk_walk nm st = map (kill 0) st.
 Proof. exact unresolved_break_kills_function_only. Qed.
 Print Assumptions C39_unresolved_break_kills_function_only.
-
-(* the seeded witness: a helper says `break foreach`, its caller loops with foreach; the loop
-   runs all its iterations; an observation in which it stopped after the first is rejected *)
-Definition helper_breaks_callers_loop : block :=
-  BCons (Foreach 1 3 (BCons (Call 1 (BCons (Out 1) (BCons (If CTrue (BCons (Break NForeach) BNil)) (BCons (Out 2) BNil))))
-                     (BCons (Out 3) BNil)))
-        (BCons (Out 4) BNil).
-Example C39_function_boundary_nonvacuous :
-  well_named helper_breaks_callers_loop = true /\
-  run_cancel helper_breaks_callers_loop =
-    ([TOut 1; TExit 0; TOut 3; TOut 1; TExit 0; TOut 3; TOut 1; TExit 0; TOut 3; TOut 4], 0%Z) /\
-  spec_ok {| c_prog := helper_breaks_callers_loop; c_obs_out := [TOut 1; TOut 4]; c_obs_exit := 0%Z |} = false.
-Proof. vm_compute. repeat split. Qed.
 
 (* Headline: the model's observation satisfies the predicate the check evaluates. *)
 Theorem C39_model_meets_spec : forall main, well_named main = true ->
@@ -94,7 +101,7 @@ Print Assumptions C39_model_meets_spec.
 (* The guard of well_named is needed: a `continue` directly in the block it names does nothing
    in the mechanism (known finding 1), so the two semantics differ. *)
 Definition direct_continue : block :=
-  BCons (Foreach 1 2 (BCons (Out 1) (BCons (Continue NForeach) (BCons (Out 2) BNil)))) (BCons (Out 3) BNil).
+  BCons (Loop LForeach 1 2 (BCons (Out 1) (BCons (Continue NForeach) (BCons (Out 2) BNil)))) (BCons (Out 3) BNil).
 Theorem C39_direct_continue_refuted :
   well_named direct_continue = false /\ run_cancel direct_continue <> run_ref direct_continue /\
   spec_ok {| c_prog := direct_continue; c_obs_out := fst (run_cancel direct_continue);
@@ -102,17 +109,33 @@ Theorem C39_direct_continue_refuted :
 Proof. split; [reflexivity|]. split; [vm_compute; discriminate|reflexivity]. Qed.
 Print Assumptions C39_direct_continue_refuted.
 
-(* Non-vacuity: a well-named program with nested loops, a function, conditional continue, break
-   and return; spec_ok rejects an observation in which the statement after `break` ran. *)
-Definition ex_prog : block :=
-  BCons (Call 1 (BCons (Foreach 1 3 (BCons (If (CEq 1 2) (BCons (Continue NForeach) BNil))
-                                     (BCons (While 2 2 (BCons (If (CEq 2 2) (BCons (Break NWhile) (BCons (Out 9) BNil))) (BCons (Out 1) BNil)))
-                                     (BCons (If (CEq 1 3) (BCons (Return 4) BNil)) (BCons (Out 2) BNil)))))
-                (BCons (Out 3) BNil)))
+Definition helper_breaks_callers_loop : block :=
+  BCons (Loop LForeach 1 3 (BCons (Call 1 (BCons (Out 1) (BCons (Branch BIf CTrue (BCons (Break NForeach) BNil) BNil) (BCons (Out 2) BNil))))
+                     (BCons (Out 3) BNil)))
         (BCons (Out 4) BNil).
+Example C39_function_boundary_nonvacuous :
+  well_named helper_breaks_callers_loop = true /\
+  run_cancel helper_breaks_callers_loop =
+    ([TOut 1; TExit 0; TOut 3; TOut 1; TExit 0; TOut 3; TOut 1; TExit 0; TOut 3; TOut 4], 0%Z) /\
+  spec_ok {| c_prog := helper_breaks_callers_loop; c_obs_out := [TOut 1; TOut 4]; c_obs_exit := 0%Z |} = false.
+Proof. vm_compute. repeat split. Qed.
+
+(* Non-vacuity: a well-named program with a function, nested foreach / while / for / switch / try,
+   conditional continue, break, nameless break and return; the former behaviour of `for`
+   (a loop ended by break reported exit number 1, which ended the surrounding try block) is
+   rejected by spec_ok. *)
+Definition ex_prog : block :=
+  BCons (Call 1 (BCons (Loop LForeach 1 3 (BCons (Branch BIf (CEq 1 2) (BCons (Continue NForeach) BNil) BNil)
+                                     (BCons (Loop LWhile 2 2 (BCons (Branch BSwitch (CEq 2 2) (BCons (Break NWhile) (BCons (Out 9) BNil)) (BCons (Out 1) BNil)) BNil))
+                                     (BCons (Branch BIf (CEq 1 3) (BCons (Return 4) BNil) BNil) (BCons (Out 2) BNil)))))
+                (BCons (Out 3) BNil)))
+        (BCons (Try false (BCons (Loop LFor 3 3 (BCons (Out 5) (BCons (Branch BIf (CEq 3 2) (BCons BreakAny (BCons (Out 8) BNil)) BNil)
+                                                 (BCons (Branch BIf (CEq 3 2) (BCons (Break NFor) BNil) BNil) BNil))))
+                           (BCons (Out 6) BNil)))
+        (BCons (Out 4) BNil)).
 Example C39_nonvacuous :
   well_named ex_prog = true /\
-  run_cancel ex_prog = ([TOut 1; TOut 2; TOut 1; TExit 4; TOut 4], 0%Z) /\
-  spec_ok {| c_prog := BCons (If CTrue (BCons (Break NIf) (BCons (Out 1) BNil))) (BCons (Out 2) BNil);
-             c_obs_out := [TOut 1; TOut 2]; c_obs_exit := 0%Z |} = false.
+  run_cancel ex_prog = ([TOut 1; TOut 2; TOut 1; TExit 4; TOut 5; TOut 5; TOut 6; TOut 4], 0%Z) /\
+  spec_ok {| c_prog := BCons (Try false (BCons (Loop LFor 1 3 (BCons (Break NFor) BNil)) (BCons (Out 1) BNil))) (BCons (Out 2) BNil);
+             c_obs_out := [TOut 2]; c_obs_exit := 0%Z |} = false.
 Proof. vm_compute. repeat split. Qed.
